@@ -425,7 +425,17 @@ func callVerifEnv(fr *frame, name string, args []value) (value, bool) {
 		_ = n
 		return len(sched.tickers), true
 	case "verifLockHeld":
-		return lockHeld(args[0].(*value)), true
+		a := args[0]
+		if it, ok := a.(iface); ok {
+			a = it.v
+		}
+		ptr, ok := a.(*value)
+		if !ok {
+			panic(pathEnd{"harness-error", "verifLockHeld wants a pointer to a mutex"})
+		}
+		return lockHeld(ptr), true
+	case "verifGoroutine":
+		return sched.cur.id, true
 	case "verifMapOrderChoice":
 		// verifMapOrderChoice(pred): from now on, ranging over a map yields the
 		// entries whose value satisfies pred last and in an order chosen by
